@@ -50,7 +50,16 @@ Forfeit(a) == /\ Covers(out, a)
 \* bookkeeping only: an amount starts to be owed before it has physically left (never happens in USim; kept out of Next)
 
 Next == \E a \in Amounts : Take(a) \/ Give(a) \/ Forfeit(a) \/ Change(a) \/ Change(Nil)
-Spec == [][Next]_rvars
+\* The same relation without the quantifier over all amounts (TLC cannot enumerate Nat \X Nat): the amount of a step
+\* is determined by the step.  ResAbsEq.tla has TLC check NextD <=> Next on every pair of states of a bounded ledger.
+\* @type: (<<Int, Int>>, <<Int, Int>>, <<Int, Int>>, <<Int, Int>>) => Bool;
+StepRel(l, o, l2, o2) ==
+         \/ LET a == Minus(l, l2) IN a # Nil /\ Covers(a, Nil) /\ Covers(l, a) /\ o2 = Plus(o, a)        \* Take
+         \/ LET a == Minus(l2, l) IN a # Nil /\ Covers(a, Nil) /\ Covers(o, a) /\ o2 = Minus(o, a)       \* Give
+         \/ LET a == Minus(o, o2) IN a # Nil /\ Covers(a, Nil) /\ Covers(o, a) /\ l2 = l                 \* Forfeit
+         \/ Covers(l2, Nil) /\ l2 # l /\ o2 = o                                                       \* Change
+NextD == StepRel(level, out, level', out')
+Spec == [][NextD]_rvars
 Init == level \in Nat \X Nat /\ out = Nil
 
 ----------------------------------------------------------------------------
